@@ -297,6 +297,7 @@ func cmdCheck(prop, tier string, rest []string) int {
 	os.MkdirAll(filepath.Join(e.VerifDir, "replays"), 0755)
 	os.MkdirAll(filepath.Join(e.VerifDir, "evidence"), 0755)
 	nDis, nFail, nKnown := 0, 0, 0
+	replayByFunc := map[string]*ReplayResult{}
 	var samples []map[string]interface{}
 	var failedList []map[string]interface{}
 	var knownObs []map[string]interface{}
@@ -320,6 +321,15 @@ func cmdCheck(prop, tier string, rest []string) int {
 			continue
 		}
 		nFail++
+		// look for a concrete failing input on the real code (once per function)
+		if ob.fc != nil && ob.fc.fn != nil {
+			if prev, ok := replayByFunc[ob.Func]; ok {
+				ob.Replay = prev
+			} else {
+				ob.Replay = e.TryReplay(ob.fc, ob)
+				replayByFunc[ob.Func] = ob.Replay
+			}
+		}
 		replay := e.writeReplay(prop, ob)
 		tail := ""
 		if !ob.hasInput() {
@@ -381,6 +391,20 @@ func cmdCheck(prop, tier string, rest []string) int {
 	for k := range unknownCalls {
 		assumptions = append(assumptions, "unmodelled call treated as havoc of the whole heap: "+k)
 	}
+	var replayable []string
+	for _, fc := range fctxs {
+		ok := fc.fn != nil && fc.fn.Parent() == nil && fc.fn.Signature.Recv() == nil
+		if ok {
+			for _, p := range fc.fn.Params {
+				if replayKind(p.Type()) == "" {
+					ok = false
+				}
+			}
+		}
+		if ok {
+			replayable = append(replayable, fc.name)
+		}
+	}
 	var unc []string
 	for k := range uncontracted {
 		unc = append(unc, k)
@@ -412,6 +436,7 @@ func cmdCheck(prop, tier string, rest []string) int {
 			"uncontracted_callees_havoc": unc,
 			"engine_warnings":            warnings,
 			"lemmas":                     len(lemmaObs),
+			"replay":                     map[string]interface{}{"method": "on a failed obligation of one of these functions a bounded search over small inputs runs the contract (compiled to Go) against the real function via go test -overlay; a violating input removes the no-failing-input-found suffix", "functions": replayable},
 			"packages":                   dirs,
 		},
 	}
@@ -423,7 +448,7 @@ func cmdCheck(prop, tier string, rest []string) int {
 	return exit
 }
 
-func (ob *Obligation) hasInput() bool { return false }
+func (ob *Obligation) hasInput() bool { return ob.Replay != nil && ob.Replay.Found }
 
 func (e *Engine) writeReplay(prop string, ob *Obligation) string {
 	dir := filepath.Join(e.VerifDir, "replays")
@@ -451,6 +476,15 @@ func (e *Engine) writeReplay(prop string, ob *Obligation) string {
 		"input":      nil,
 		"note":       "obligation not discharged; no concrete failing input was derived (no-failing-input-found)",
 	}
+	if ob.Replay != nil {
+		rec["replay_search"] = map[string]interface{}{"tried": ob.Replay.Tried, "found": ob.Replay.Found, "reason": ob.Replay.Reason, "go_test": ob.Replay.TestFile, "test_output": ob.Replay.Output}
+		if ob.Replay.Found {
+			rec["input"] = ob.Replay.Input
+			rec["failed_clause_on_real_code"] = ob.Replay.Clause
+			rec["go_test"] = ob.Replay.TestFile
+			rec["note"] = "the generated in-package test " + ob.Replay.TestFile + " (run with go test -overlay) executes the REAL function on this input and the contract is violated"
+		}
+	}
 	data, _ := json.MarshalIndent(rec, "", " ")
 	os.WriteFile(path, data, 0644)
 	return path
@@ -476,7 +510,15 @@ func cmdReplay(path string) int {
 		}
 	}
 	if t, ok := rec["go_test"].(string); ok && t != "" {
-		fmt.Printf("replay test: %s\n", t)
+		fmt.Printf("recorded failing input: %v\nre-running the replay test %s against /repo\n", rec["input"], t)
+		e := newEngineFromEnv()
+		out, err := runReplayTest(e, t)
+		fmt.Println(out)
+		if err != nil {
+			fmt.Println("replay test failed (the violation reproduces)")
+			return 1
+		}
+		fmt.Println("replay test passed (the violation does not reproduce on the current tree)")
 	}
 	return 0
 }
